@@ -106,7 +106,10 @@ def run(ctx):
         # a schema is only used to accuse `fake` when its witness is accepted by the real validator AND by the
         # independent Conforms oracle
         try:
-            ok = (not validate(s, w).has_errors()) and conforms.conforms(s, w)
+            # satisfiable = the witness conforms in the sense of the INDEPENDENT oracle (harness/conforms.py, checked against
+            # the real validator by C02 on the unchanged tree); the real validate is what fake's output is judged by, so it
+            # must not also be the judge of whether the schema counts
+            ok = conforms.conforms(s, w)
         except Exception:
             ok = False
         if not ok:
